@@ -283,4 +283,38 @@ def users (sb : SetupBy) (n : Str) (v : Option Str) : List User :=
   let hits := sb.filter fun p => p.1.1 == n && (v.isNone || p.1.2 == v)
   sortStable userLe (hits.flatMap (·.2))
 
+/-! ### the pinned tree (before the repairs D18 and D2): where sorting raised `TypeError`
+
+Not used by the driver: the model mirrors the tree with the repairs.  These definitions say where the
+pinned code failed, for the negation witnesses in `Props/C13.lean`. -/
+
+/-- The pinned `Product.__lt__` compared the tuples `(name, version, flavor)`: Python raises `TypeError`
+when the comparison reaches `None` against a string — same name and exactly one version `None`, or same name
+and version and exactly one flavor `None`. -/
+def incomparablePinned (p q : Prod) : Bool :=
+  p.name == q.name && ((p.ver.isNone != q.ver.isNone) || (p.ver == q.ver && p.real != q.real))
+
+/-- a comparison sort of a layer holding such a pair compares one such pair directly -/
+def layerRaisesPinned (l : List Prod) : Bool := l.any fun p => l.any fun q => incomparablePinned p q
+
+/-- the layers `getDependentProducts(topological=True)` obtains from `topologicalSort`; `none` = out of fuel -/
+def topoLayers (db : Db) (fuel : Nat) (top : Prod) (checkCycles : Bool) : Option (Topo.Result Prod) :=
+  match listing db fuel [] top with
+  | none => none
+  | some (out, _) =>
+    match listing db fuel (out.map fun e => (e.prod.name, e.prod.ver)) top with
+    | none => none
+    | some (_, st) => some (Topo.topologicalSort (graphOf st) checkCycles)
+
+/-- pinned: the topological listing dies with `TypeError` (D18) -/
+def topologicalRaisesPinned (db : Db) (fuel : Nat) (top : Prod) : Bool :=
+  match topoLayers db fuel top false with
+  | some (.ok ls) => ls.any layerRaisesPinned
+  | _ => false
+
+/-- pinned `Uses.users` compared `Props` objects as soon as two entries tied on (user, version): `TypeError` (D2) -/
+def usersRaisesPinned (sb : SetupBy) (n : Str) (v : Option Str) : Bool :=
+  let l := (sb.filter fun p => p.1.1 == n && (v.isNone || p.1.2 == v)).flatMap (·.2)
+  l.any fun a => (l.filter fun b => b.name == a.name && b.ver == a.ver).length > 1
+
 end EupsModel.Deps
